@@ -93,6 +93,7 @@ pub fn c19() -> Check {
             Box::new(SqlScenario { name: "c19-drop", family: Family::Any, mode: Mode::Drop, need_reference: false, weight: 3, dynamic_filters: false, nlj_focus: false, tight_sort: false }),
             Box::new(crate::c19::YieldRepartition),
             Box::new(crate::c19::YieldSql),
+            Box::new(crate::c19::YieldPlan),
         ],
         cases_quick: 16_000,
         cases_thorough: 400_000,
@@ -108,6 +109,7 @@ pub fn c20() -> Check {
         level: "fault_enumeration",
         scenarios: vec![
             Box::new(SqlScenario { name: "c20-faults", family: Family::Any, mode: Mode::Fault, need_reference: false, weight: 2, dynamic_filters: false, nlj_focus: false, tight_sort: false }),
+            Box::new(SqlScenario { name: "c20-faults-tight", family: Family::Sort, mode: Mode::Fault, need_reference: true, weight: 1, dynamic_filters: false, nlj_focus: false, tight_sort: true }),
             Box::new(crate::c10::RepartitionFaults),
             Box::new(crate::c20store::ScanFaults),
             Box::new(crate::c25::WriteFaults),
